@@ -1,5 +1,6 @@
 """C15 — doc comments are carried over, contained, and never alter the type."""
 from rules import templates as T
+from rules import text_rules as X
 from rules import field_rules as F
 
 ASSUMPTIONS = ["that the comment contains the documentation text verbatim is NOT decided"]
@@ -8,7 +9,7 @@ ASSUMPTIONS = ["that the comment contains the documentation text verbatim is NOT
 def run(ctx):
     m = ctx.mir("default")
     out = [F.docs_operations_rule(m["ts_rs_macros"], "C15"), F.docs_slot_rule(m["ts_rs_macros"], "C15"), T.layout_rule(m["ts_rs"], "C15", rule="C15.R2b"),
-           T.docs_containment_rule(m["ts_rs_macros"], ctx.syn, "C15"), T.docs_separator_rule(ctx.syn, m["ts_rs"], "C15")]
+           X.docs_containment_rule(m["ts_rs_macros"], "C15"), X.docs_separator_rule(m["ts_rs_macros"], m["ts_rs"], "C15")]
     out.append(T.docs_init_rule(ctx.syn, "C15"))
     out.append(T.impl_assembly_rule(ctx.syn, "C15", "C15.R8"))
     from rules import libimpls as L
